@@ -93,18 +93,9 @@ def parseProg (j : Json) : Option Prog := do
       | _ => none) (← asArr? (j.getObjValD "globals"))
   pure { templates := ts, globals := gs, sz := pySizeof }
 
-def errName : Err → String
-  | .outputLimit => "OutputStreamLimitError"
-  | .nsLimit => "LocalNamespaceLimitError"
-  | .loopLimit => "LoopIterationLimitError"
-  | .contextDepth => "ContextDepthError"
-  | .blockNesting => "BlockNestingError"
-  | .notFound => "TemplateNotFoundError"
-  | .disabledTag => "DisabledTagError"
-
 def resJson (r : Res) : Json :=
   match r with
-  | .error e => Json.mkObj [("err", jstr (errName e))]
+  | .error e => Json.mkObj [("err", jstr e.pyName)]
   | .ok w => Json.mkObj [("ok", jstr (strOf w.buf.text)), ("log", jarr (w.log.map jnat))]
 
 def handle (args : List Json) : Json :=
